@@ -9,12 +9,15 @@ LEVEL = 'proof'
 COQ_TARGETS = ['C13/Props.vo', 'C13/Corr.vo']
 PROPS = 'C13/Props.v'
 EXTRACTED = ['ff_sections']
-CASE_IMPORTS = 'From V Require Import C13.Tokenizer C13.Mechanisms C13.Corr.\nFrom Coq Require Import QArith.'
+CASE_IMPORTS = 'From V Require Import C13.Tokenizer C13.Mechanisms C13.Lines C13.Corr.\nFrom Coq Require Import QArith.'
 RULE = ('mechanisms (evaluated in Coq against the real functions): random interaction lines over blanks/braces/tokens for '
         '_tokenize; macro tables and lines for _substitute_macros; node keys x order attributes for _treat_atom_prefix; '
         'backward-mapping lines with multiplicities and ! markers for _compute_weights; event sequences (top-level '
         'headers of every kind in any order and number, sub-section headers, lines) printed as .ff files and loaded by '
-        'read_ff. whole files (validated in Python, not proved): random ASTs of the .ff grammar (macros, variables, '
+        'read_ff; token lists of interaction lines of a block (declared names, 1-based indices incl. 0 / out of range / leading '
+        'zeros, undeclared and prefixed names, bracketed attribute tokens, the -- delimiter, parameters, meta; free and fixed '
+        'section sizes 1-4; random token soups) for _base_parser, and [ atoms ] lines (duplicates, missing columns, non-integer '
+        'numbers, trailing attributes) for _parse_block_atom. whole files (validated in Python, not proved): random ASTs of the .ff grammar (macros, variables, '
         'citations, blocks with atoms/interactions/#meta/edges, links with attributes, choices, not(), order prefixes or '
         'order attributes, removals, non-edges, patterns, features, molmeta, modifications) and .itp files (several '
         'moleculetypes, #ifdef) are printed, loaded and compared field by field; each listed fault is injected at a random '
@@ -54,6 +57,68 @@ def gen_weights(rng):
             to.append([rng.random() < 0.25, rng.randint(1, 3)])
         lines.append({'from': a, 'to': to})
     return {'kind': 'weights', 'lines': lines}
+
+
+LINE_NAMES = ['BB', 'SC1', 'SC2', 'CA', 'N1']
+ATTR_TOKENS = ['{"a": 1}', '{"v": 2}', '{"a": {"b": 3}}']
+
+
+def gen_line(rng):
+    """tokens of one interaction line of a block handed to _base_parser"""
+    names = rng.sample(LINE_NAMES, rng.randint(1, 4))
+    if rng.random() < 0.08:
+        names.append('+BB')                  # a block atom whose name starts with an order character cannot be referred to
+    natoms = rng.choice([None, None, 1, 2, 2, 3, 4])
+    if rng.random() < 0.55:
+        # a line in the documented shape: references (names or 1-based indices), attributes, delimiter, parameters, meta
+        n = natoms if natoms is not None and rng.random() < 0.75 else rng.randint(0, 5)
+        toks = []
+        for _ in range(n):
+            r = rng.random()
+            if r < 0.6:
+                toks.append(rng.choice(names))
+            elif r < 0.85:
+                toks.append(str(rng.randint(1, len(names))))
+            elif r < 0.9:
+                toks.append(rng.choice(['0', '00', str(len(names) + 1), '9', '01']))
+            else:
+                toks.append(rng.choice(['ZZ', '+BB', '-SC1']))
+            if rng.random() < 0.25:
+                toks.append(rng.choice(ATTR_TOKENS))
+        if natoms is None or rng.random() < 0.5:
+            toks.append('--')
+        toks += [rng.choice(['1', '0.3', '100', '2', 'BB']) for _ in range(rng.randint(0, 3))]
+        if rng.random() < 0.3:
+            toks.append(rng.choice(ATTR_TOKENS))
+    else:
+        alpha = names + ['ZZ', '0', '1', '2', '3', '9', '--', '1', '0.3'] + ATTR_TOKENS
+        toks = [rng.choice(alpha) for _ in range(rng.randint(0, 8))]
+    return {'kind': 'line', 'names': names, 'natoms': natoms, 'delete': rng.random() < 0.05, 'tokens': toks}
+
+
+def gen_atomlines(rng):
+    """the [ atoms ] lines of one block handed to _parse_block_atom one after the other"""
+    lines = []
+    pool = ['BB', 'SC1', 'SC2', 'CA', 'N1', 'BB']
+    for i in range(rng.randint(1, 5)):
+        toks = [str(i + 1), rng.choice(['P1', 'C3']), rng.choice(['1', '2', '12', '-3', '+4']), 'ALA', rng.choice(pool), str(i + 1)]
+        r = rng.random()
+        if r < 0.08:
+            toks[2] = rng.choice(['x', '1.5'])
+        elif r < 0.14:
+            toks[5] = rng.choice(['y', '2.0'])
+        elif r < 0.22:
+            toks = toks[:rng.randint(0, 5)]
+        if len(toks) == 6 and rng.random() < 0.6:
+            toks.append(rng.choice(['0.0', '1.0', '-0.5']))
+            if rng.random() < 0.5:
+                toks.append(rng.choice(['72.0', '36']))
+                if rng.random() < 0.1:
+                    toks.append('extra')
+        if rng.random() < 0.25:
+            toks.append(rng.choice(ATTR_TOKENS))
+        lines.append(toks)
+    return {'kind': 'atomlines', 'lines': lines}
 
 
 def gen_sections(rng):
@@ -124,6 +189,8 @@ def generate(rng, tier):
     cases += [gen_prefix(rng) for _ in range(200 * k)]
     cases += [gen_weights(rng) for _ in range(100 * k)]
     cases += [gen_sections(rng) for _ in range(150 * k)]
+    cases += [gen_line(rng) for _ in range(400 * k)]
+    cases += [gen_atomlines(rng) for _ in range(150 * k)]
     for _ in range(120 * k):
         cases.append({'kind': 'ff', 'ff': c13_ff.gen_ff(rng)})
     for i in range(80 * k):
@@ -170,6 +237,34 @@ def run_impl(inp):
             return {'weights': [[int(to[1:]), [[int(fr[1:]), str(Fraction(wt).limit_denominator(10 ** 6))] for fr, wt in fw.items()]] for to, fw in w.items()]}
         except IOError:
             return {'weights': None}
+    if k == 'line':
+        import collections
+        import json
+        from vermouth.molecule import Block
+        block = Block()
+        block.name = 'X'
+        for n in inp['names']:
+            block.add_node(n, atomname=n)
+        try:
+            ffinput._base_parser(collections.deque(inp['tokens']), block, 'block', 'bonds', natoms=inp['natoms'], delete=inp['delete'])
+        except IOError:
+            return {'line': None}
+        (inter,) = block.interactions['bonds']
+        meta = None
+        if inter.meta:
+            (meta,) = [t for t in ATTR_TOKENS if json.loads(t) == dict(inter.meta)]
+        return {'line': [list(inter.atoms), [str(p) for p in inter.parameters], meta]}
+    if k == 'atomlines':
+        import collections
+        from vermouth.molecule import Block
+        block = Block()
+        block.name = 'X'
+        try:
+            for toks in inp['lines']:
+                ffinput._parse_block_atom(collections.deque(toks), block)
+        except (IOError, ValueError, IndexError):
+            return {'atoms': None}
+        return {'atoms': list(block.nodes)}
     ff = vermouth.forcefield.ForceField(name='testff')
     if k == 'sections':
         ffinput.read_ff(print_sections(inp['events']), ff)
@@ -231,6 +326,13 @@ def emit(inp, out):
         impl = 'None' if w is None else '(Some %s)' % listlit(w, lambda pw: '(%s, %s)' % (
             zlit(pw[0]), listlit(pw[1], lambda aw: '(%s, %s)' % (zlit(aw[0]), qlit(Fraction(aw[1]))))))
         return 'CWeights %s %s' % (lines, impl)
+    if k == 'line':
+        impl = 'None' if out['line'] is None else '(Some (%s, %s, %s))' % (
+            listlit(out['line'][0], strlit), listlit(out['line'][1], strlit), optlit(out['line'][2], strlit))
+        return 'CLine %s %s %s %s %s' % (listlit(inp['names'], strlit), optlit(inp['natoms'], natlit), blit(inp['delete']),
+                                         listlit(inp['tokens'], strlit), impl)
+    if k == 'atomlines':
+        return 'CAtomLines %s %s' % (listlit(inp['lines'], lambda l: listlit(l, strlit)), optlit(out['atoms'], lambda a: listlit(a, strlit)))
     if k == 'sections':
         es = []
         for e in inp['events']:
@@ -260,6 +362,8 @@ def known(inp, out):
     # F23: the 1-based atom index 0 of a block interaction is read as the last atom (Python's negative index)
     if inp['kind'] == 'fault' and inp['fault'] == 'index_zero' and 'loaded without an error' in (out.get('msg') or ''):
         return 'F23'
+    if inp['kind'] == 'line' and out.get('line') is not None and any(t.strip('0') == '' for t in inp['tokens'] if t.isdigit()):
+        return 'F23'
     return None
 
 
@@ -283,6 +387,13 @@ def describe(inp, out):
         d['tok_error'] = out['tokens'] is None
     if inp['kind'] == 'prefix':
         d['prefix_ok'] = out['ok']
+    if inp['kind'] == 'line':
+        d['line_accepted'] = out['line'] is not None
+        d['line_natoms'] = inp['natoms']
+        d['line_has_delim'] = '--' in inp['tokens']
+        d['line_by_index'] = any(t.isdigit() for t in (out['line'] or [[]])[0]) or any(t.isdigit() for t in inp['tokens'][:2])
+    if inp['kind'] == 'atomlines':
+        d['atomlines_accepted'] = out['atoms'] is not None
     if inp['kind'] == 'fault':
         d['fault'] = inp['fault'] + ('(skipped)' if out.get('skipped') else '')
     if inp['kind'] == 'ff':
